@@ -404,3 +404,52 @@ def pool_pair(ctx, L, rule="R-POOL-PAIR"):
                 ctx.holds(rule, inst)
             else:
                 ctx.violated(rule, p, inst, "setter stores %s" % (pretty(st[0].target) if st else None), p.node)
+
+
+def wakeup_min(ctx, func, rule="R-WAKEUP-MIN", tag=""):
+    """the job pass computes its next wake-up as a running minimum: every assignment to the wake-up variable after
+    its initialisation is `if wake > X: wake = X` or `wake = min(wake, X)`"""
+    f = func
+    # the wake-up variable: returned by the DLL scan / used for the sleep in the ECU loop
+    var = None
+    for n in ast.walk(f.node):
+        if isinstance(n, ast.Return) and isinstance(n.value, ast.Name):
+            var = n.value.id
+    if var is None:
+        for n in ast.walk(f.node):
+            if isinstance(n, ast.Assign) and isinstance(n.value, ast.Call) and isinstance(n.value.func, ast.Attribute) and n.value.func.attr == "async_job_thread" \
+                    and isinstance(n.targets[0], ast.Name):
+                var = n.targets[0].id
+    if var is None:
+        ctx.unknown(rule, "wake-up variable not found in %s" % f.qual)
+        return
+    from .robust import parents
+    pm = parents(f.node)
+    assigns = [n for n in ast.walk(f.node) if isinstance(n, ast.Assign) and any(isinstance(t, ast.Name) and t.id == var for t in n.targets)]
+    assigns.sort(key=lambda n: n.lineno)
+    n_ok = 0
+    for k, a in enumerate(assigns):
+        if k == 0:
+            continue  # initialisation (now + 5 s / result of the DLL scan)
+        v = a.value
+        ok = False
+        if isinstance(v, ast.Call) and isinstance(v.func, ast.Name) and v.func.id == "min" and any(isinstance(x, ast.Name) and x.id == var for x in v.args):
+            ok = True
+        par = pm.get(a)
+        if isinstance(par, ast.If) and a in par.body and isinstance(par.test, ast.Compare) and len(par.test.ops) == 1:
+            l, r, op = par.test.left, par.test.comparators[0], par.test.ops[0]
+            dv = ast.dump(v)
+            if isinstance(op, (ast.Gt, ast.GtE)) and isinstance(l, ast.Name) and l.id == var and ast.dump(r) == dv:
+                ok = True
+            if isinstance(op, (ast.Lt, ast.LtE)) and isinstance(r, ast.Name) and r.id == var and ast.dump(l) == dv:
+                ok = True
+        inst = "%s%s update #%d: wake-up := %s only when earlier" % (tag, f.name, k, ast.unparse(v)[:40])
+        if ok:
+            n_ok += 1
+            ctx.holds(rule, inst)
+        else:
+            ctx.violated(rule, f, "%s%s update #%d: next wake-up is a running minimum [%s]" % (tag, f.name, k, ast.unparse(v)[:40]),
+                         "the wake-up time is overwritten without the test `later than this deadline`: with several pending deadlines the "
+                         "thread sleeps until the one scanned last, and an earlier one is served late", a)
+    if n_ok == 0 and len(assigns) < 2:
+        ctx.unknown(rule, "no wake-up updates found in %s" % f.qual)
